@@ -67,6 +67,10 @@ def run(R, ctx):
     clustersuite.apply_differential(R, ctx, binary, 3000 if R.tier == "quick" else 60000)
     rendezvousgen.run_suite(R, ctx, binary, 600 if R.tier == "quick" else 12000)
     multigen.run_suite(R, ctx, binary, 300 if R.tier == "quick" else 6000)
+    # the real publishEntries fed Readys with commands on both sides of membership-change entries, a slow state machine behind it: the state machine is handed
+    # exactly the commands of the log, once, in log order (engine snaprace, shared with C08)
+    from . import c08
+    c08.snaprace(R, binary)
     clustersuite.run_cluster(R, ctx, "C07", binary, known, KNOWN_HERE)
     R.rule = ("apply: a batch line is non-trivial when it publishes at least one entry. rendezvous: a line is non-trivial when at least one "
               "committed proposal's reply reached its connection and was compared. multi: a line is non-trivial when a reply of a committed "
@@ -79,6 +83,9 @@ def run(R, ctx):
 
 
 def replay(R, payload):
+    if payload.get("engine") == "snaprace":
+        from . import c08
+        return c08.replay(R, payload)
     if payload.get("engine") == "cluster":
         return clustersuite.replay_cluster(R, payload)
     return core.generic_replay(R, payload)
